@@ -1,6 +1,8 @@
 package props
 
 import (
+	exserver "github.com/cybergarage/go-redis/examples/go-redisd/server"
+
 	"bufio"
 	"encoding/binary"
 	"encoding/json"
@@ -236,7 +238,29 @@ func (c *EvalChild) Eval(kind string, cs any, timeout time.Duration) (f *Failure
 	return nil, false, "", nil
 }
 
-func childServer() { os.Exit(64) }
+// childServer runs the bundled example server on the loopback port given in VERIF_CHILD_PORT
+// until stdin is closed. It is the unit whose survival the parent judges.
+func childServer() {
+	if s := os.Getenv("VERIF_CHILD_AS"); s != "" {
+		var lim uint64
+		fmt.Sscan(s, &lim)
+		if lim > 0 {
+			syscall.Setrlimit(syscall.RLIMIT_AS, &syscall.Rlimit{Cur: lim, Max: lim})
+		}
+	}
+	var port int
+	fmt.Sscan(os.Getenv("VERIF_CHILD_PORT"), &port)
+	srv := exserver.NewServer()
+	srv.SetPort(port)
+	if err := srv.Start(); err != nil {
+		fmt.Println("START-FAILED", err)
+		os.Exit(65)
+	}
+	fmt.Println("READY")
+	io.Copy(io.Discard, os.Stdin)
+	srv.Stop()
+	os.Exit(0)
+}
 
 // TestSelfCodec checks the harness's own codec on fixed cases (run by --setup).
 func TestSelfCodec(t *testing.T) {
